@@ -67,6 +67,8 @@ pub struct GenomeOpts {
     pub repeats: bool,
     pub palindromes: bool,
     pub revcomp_records: bool,
+    /// a run of k+2 A's: the split k-mer whose packed value is 0
+    pub poly_a: bool,
 }
 impl GenomeOpts {
     pub fn swarm(rng: &mut Rng, k: usize) -> GenomeOpts {
@@ -81,6 +83,7 @@ impl GenomeOpts {
             repeats: rng.chance(45),
             palindromes: rng.chance(35),
             revcomp_records: rng.chance(40),
+            poly_a: rng.chance(10),
         }
     }
     pub fn plain(len: usize) -> GenomeOpts {
@@ -93,6 +96,7 @@ impl GenomeOpts {
             repeats: false,
             palindromes: false,
             revcomp_records: false,
+            poly_a: false,
         }
     }
 }
@@ -112,6 +116,12 @@ fn other_base(rng: &mut Rng, b: u8) -> u8 {
 pub fn gen_samples(rng: &mut Rng, n: usize, k: usize, o: &GenomeOpts, prefix: &str) -> Vec<Sample> {
     let half = (k - 1) / 2;
     let mut anc = rng.dna(o.len);
+    if o.poly_a && o.len > k + 6 {
+        let at = rng.range(1, o.len - k - 3);
+        for b in &mut anc[at..at + k + 2] {
+            *b = b'A';
+        }
+    }
     if o.palindromes && o.len > 2 * k + 4 {
         // X + b + revcomp(X): both arms of the split k-mer are each other's reverse complement
         let at = rng.range(1, o.len - k - 1);
